@@ -811,3 +811,94 @@ fn ops_time_zero_resolution() {
     std::mem::forget((r, l, rr));
     assert!(ok, "a zero tick resolution is reported as a fault, never a division panic");
 }
+
+// ---------------------------------------------------------------------------------------------
+// Known findings K1 / K2 (recorded in /verif/known_findings.json, not repaired: the repair needs a
+// semantics decision). Each has an exclusion harness (the contract holds outside the recorded input
+// class) and a witness harness (its cover says whether the finding is still present).
+//
+// K1  mixed signed/unsigned operands (accepted by the checker, widened to the UNSIGNED type): a
+//     negative signed operand yields the static-class error TypeMismatch instead of a value-dependent
+//     fault (arithmetic) or the mathematically correct BOOL (comparison).
+// K2  integer ** negative integer yields TypeMismatch.
+// ---------------------------------------------------------------------------------------------
+
+// @unit id=ops.mixed.add.dint.uint props=C01,C02,C03 tier=quick kind=proof fn=apply_binary,numeric_arith,to_u64,unsigned_from_u128,wider_numeric
+#[kani::proof]
+fn ops_mixed_add_dint_uint() {
+    let a: i32 = kani::any();
+    let b: u16 = kani::any();
+    kani::assume(a >= 0); // K1 excluded
+    let r = apply_binary(BinaryOp::Add, Value::DInt(a), Value::UInt(b), &profile());
+    let e = a as i128 + b as i128;
+    let ok = if e <= u16::MAX as i128 { matches!(&r, Ok(Value::UInt(v)) if *v as i128 == e) } else { matches!(&r, Err(RuntimeError::Overflow)) };
+    kani::cover!(e <= u16::MAX as i128 && a > 0);
+    kani::cover!(e > u16::MAX as i128);
+    std::mem::forget(r);
+    assert!(ok, "DINT + UINT with a non-negative DINT is exact in UINT, Overflow iff out of range");
+}
+
+// @unit id=ops.mixed.cmp.dint.uint props=C01,C02 tier=quick kind=proof fn=apply_binary,numeric_cmp,numeric_eq,to_u64,wider_numeric
+#[kani::proof]
+fn ops_mixed_cmp_dint_uint() {
+    let a: i32 = kani::any();
+    let b: u16 = kani::any();
+    kani::assume(a >= 0); // K1 excluded
+    let ok = cmp_all(&|| Value::DInt(a), &|| Value::UInt(b), (a as i128) < (b as i128), (a as i128) == (b as i128));
+    kani::cover!((a as i128) > (b as i128));
+    assert!(ok, "DINT vs UINT comparisons follow the mathematical order (non-negative DINT)");
+}
+
+// @unit id=ops.mixed.K1_witness props=C01 tier=quick kind=proof known=K1-mixed-sign-negative fn=apply_binary,to_u64
+#[kani::proof]
+fn ops_mixed_k1_witness() {
+    let a: i32 = kani::any();
+    let b: u16 = kani::any();
+    let r = apply_binary(BinaryOp::Add, Value::DInt(a), Value::UInt(b), &profile());
+    let hit = a < 0 && matches!(&r, Err(RuntimeError::TypeMismatch));
+    std::mem::forget(r);
+    kani::cover!(hit);
+}
+
+fn ipow(base: i128, exp: u32) -> Option<i128> {
+    let mut acc: i128 = 1;
+    let mut i = 0;
+    while i < exp {
+        acc = acc.checked_mul(base)?;
+        i += 1;
+    }
+    Some(acc)
+}
+
+// @unit id=ops.pow.int.int props=C01,C02,C03 tier=quick kind=bounded bound="exponent 0..=5, base full INT domain" timeout=900 fn=apply_binary,numeric_arith,signed_from_i128
+#[kani::proof]
+#[kani::unwind(8)]
+fn ops_pow_int_int() {
+    let a: i16 = kani::any();
+    let b: i16 = kani::any();
+    kani::assume(b >= 0 && b <= 5); // K2 excluded (b < 0); bounded exponent
+    let r = apply_binary(BinaryOp::Pow, Value::Int(a), Value::Int(b), &profile());
+    let e = ipow(a as i128, b as u32);
+    let ok = match e {
+        Some(v) if v >= i16::MIN as i128 && v <= i16::MAX as i128 => matches!(&r, Ok(Value::Int(x)) if *x as i128 == v),
+        _ => matches!(&r, Err(RuntimeError::Overflow)),
+    };
+    kani::cover!(b == 5 && a == 8);
+    kani::cover!(b == 0 && a == 0);
+    kani::cover!(b == 3 && a == -32);
+    std::mem::forget(r);
+    assert!(ok, "INT ** n is the exact power in INT, Overflow iff out of range (0 ** 0 = 1)");
+}
+
+// @unit id=ops.pow.K2_witness props=C01 tier=quick kind=proof known=K2-pow-negative-exponent fn=apply_binary,numeric_arith
+#[kani::proof]
+#[kani::unwind(8)]
+fn ops_pow_k2_witness() {
+    let a: i16 = kani::any();
+    let b: i16 = kani::any();
+    kani::assume(b < 0);
+    let r = apply_binary(BinaryOp::Pow, Value::Int(a), Value::Int(b), &profile());
+    let hit = matches!(&r, Err(RuntimeError::TypeMismatch));
+    std::mem::forget(r);
+    kani::cover!(hit);
+}
